@@ -338,7 +338,7 @@ func c06CTA(rc *RuleCtx) {
 				// idiom A: the whole operation is one critical section — the lock held at the update was acquired before
 				// every lookup / enumeration of this map made by the function
 				whole := true
-				nLook := 0
+				nLook, keyed := 0, 0
 				eachInstr(f, func(in ssa.Instruction) {
 					var m ssa.Value
 					switch x := in.(type) {
@@ -361,8 +361,37 @@ func c06CTA(rc *RuleCtx) {
 					if !domInstr(h.site, in) {
 						whole = false
 					}
+					if lk, isLk := in.(*ssa.Lookup); isLk && s.key != nil && sameValue(lk.Index, s.key) {
+						keyed++
+					}
+					if _, isRange := in.(*ssa.Range); isRange {
+						keyed++
+					}
 				})
-				if whole && nLook > 0 {
+				// ... and, when a walk made before the lock was taken looked names up in this map, one of the lookups made
+				// under the lock asks about the entry that is updated (a lookup of another key under the lock decides
+				// nothing about this one: the unlocked walk did)
+				preWalk := false
+				eachCall(f, func(ci ssa.CallInstruction) {
+					if domInstr(h.site, ci) || preWalk {
+						return
+					}
+					for _, callee := range a.calleesOf(ci) {
+						if isEntryPoint(callee) || len(callee.Blocks) == 0 {
+							continue
+						}
+						eachInstr(callee, func(in ssa.Instruction) {
+							if lk, ok := in.(*ssa.Lookup); ok {
+								if ld, ok := stripCT(lk.X).(*ssa.UnOp); ok && ld.Op == token.MUL {
+									if lfa, ok := ld.X.(*ssa.FieldAddr); ok && fieldName(lfa.X.Type(), lfa.Field) == s.field {
+										preWalk = true
+									}
+								}
+							}
+						})
+					}
+				})
+				if whole && nLook > 0 && (keyed > 0 || s.key == nil || !preWalk) {
 					rc.good(cons, s.in.Pos(), fmt.Sprintf("the write lock %s.mu is taken before all %d lookups of this map made by the operation and held until the update: one critical section", prettyKey(s.obj), nLook))
 					continue
 				}
